@@ -49,6 +49,8 @@ inductive Ev where
   | dlv (d src h : Nat) (mc : Bool) (items : List Item)
   | added (b : Br) (s : Svc)
   | removed (b : Br) (s : Svc)
+  /-- an instant at which the observer looks at every browser (long-horizon runs) -/
+  | obs
   deriving DecidableEq, Repr
 
 structure TEv where
@@ -78,12 +80,21 @@ structure Cfg where
   `respBefore` is not answered again -/
   respBefore : Int
   respAfter : Int
+  /-- effective minimum TTL of a cached PTR (s); the cache is purged of expired records every `cleanup` ms -/
+  ptrMinTtl : Nat
+  cleanup : Int
+  /-- a browser re-queries a held PTR at these per-mille of its TTL, each no earlier than `refreshEarly` before (a refreshed
+  record keeps a schedule that is within one `browserTime` of its new 75 % point: "avoid churn") and within `refreshWin` after -/
+  refreshAt : List Int
+  refreshEarly : Int
+  refreshWin : Int
   deriving DecidableEq, Repr
 
 /-- the numbers of the English property / DESIGN §7 -/
 @[reducible] def Cfg.paper : Cfg :=
   { regDelay := 350, ann := [350, 575, 800], updAnn := [0, 225, 450], bye := [0, 125, 250], maxDelay := 100,
-    qLo := 20, qHi := 120, qOff := [0, 1000, 5000, 14000], dupQ := 999, respBefore := 1000, respAfter := 1200 }
+    qLo := 20, qHi := 120, qOff := [0, 1000, 5000, 14000], dupQ := 999, respBefore := 1000, respAfter := 1200,
+    ptrMinTtl := 1125, cleanup := 10000, refreshAt := [750, 850], refreshEarly := 10000, refreshWin := 25000 }
 
 def startupOffsets : Nat → Int → Int → List Int
   | 0, _, _ => []
@@ -98,7 +109,13 @@ def Cfg.gen : Cfg :=
     qLo := (Gen.firstQueryDelayRandomInterval.getD 0 0 : Nat), qHi := (Gen.firstQueryDelayRandomInterval.getD 1 0 : Nat),
     qOff := startupOffsets Gen.startupQueries 0 0, dupQ := (Gen.duplicateQuestionInterval : Nat),
     respBefore := (Gen.duplicatePacketSuppressionInterval : Nat),
-    respAfter := ((Gen.oneSecond + Gen.protectedAggregationDelay : Nat) : Int) }
+    respAfter := ((Gen.oneSecond + Gen.protectedAggregationDelay : Nat) : Int),
+    ptrMinTtl := Gen.dnsPtrMinTtl, cleanup := ((Gen.cacheCleanupInterval * 1000 : Nat) : Int),
+    refreshAt := [((Gen.expireRefreshTimePercent * 10 : Nat) : Int),
+                  ((Gen.expireRefreshTimePercent * 10 + Gen.rescueRecordRetryTtlPercentagePerMille : Nat) : Int)],
+    refreshEarly := (Gen.browserTime : Nat),
+    -- one scheduler pass at most `browserTime` late, or (a browser that starts late) the start-up phase first
+    refreshWin := ((Gen.browserTime + 15000 : Nat) : Int) }
 
 /-! ### typed views of a trace -/
 
@@ -158,14 +175,26 @@ def lastSome {α β : Type} (f : α → Option β) : List α → Option β
   | [] => none
   | a :: r => match lastSome f r with | some b => some b | none => f a
 
-def heldEv (h : Nat) (s : Svc) (e : TEv) : Option Nat :=
+def heldEv (h : Nat) (s : Svc) (e : TEv) : Option (Nat × Int) :=
   match e.e with
-  | .dlv _ _ h' _ items => if h' = h then (ptrOf s items).map (·.1) else none
+  | .dlv _ _ h' _ items => if h' = h then (ptrOf s items).map (fun p => (p.1, e.t)) else none
   | _ => none
 
-/-- host `h` holds PTR(`s`): the last PTR(`s`) it processed had TTL > 0 (below the 1125 s TTL floor nothing expires) -/
+/-- the last PTR(`s`) that host `h` processed had TTL > 0 -/
 def held (tr : Trace) (h : Nat) (s : Svc) : Bool :=
-  match lastSome (heldEv h s) tr with | some ttl => 0 < ttl | none => false
+  match lastSome (heldEv h s) tr with | some (ttl, _) => 0 < ttl | none => false
+
+/-- lifetime in ms of a cached PTR received with `ttl` s (the record manager raises it to the 1125 s floor) -/
+def effTtl (cfg : Cfg) (ttl : Nat) : Int := ((max ttl cfg.ptrMinTtl : Nat) : Int) * 1000
+
+/-- the last PTR(`s`) processed by `h` has not outlived its TTL by more than `grace` at `T` -/
+def unexpired (cfg : Cfg) (tr : Trace) (h : Nat) (s : Svc) (T grace : Int) : Bool :=
+  match lastSome (heldEv h s) tr with | some (ttl, t) => T < t + effTtl cfg ttl + grace | none => true
+
+/-- `h` holds PTR(`s`) at `T`: last PTR positive and not expired -/
+def heldFresh (cfg : Cfg) (tr : Trace) (h : Nat) (s : Svc) (T : Int) : Bool := held tr h s && unexpired cfg tr h s T 0
+/-- … or expired less than one cache-cleanup period ago (the Removed callback fires at the cleanup) -/
+def heldGrace (cfg : Cfg) (tr : Trace) (h : Nat) (s : Svc) (T : Int) : Bool := held tr h s && unexpired cfg tr h s T cfg.cleanup
 
 def cbEv (b : Br) (s : Svc) (e : TEv) : Option Bool :=
   match e.e with
@@ -357,24 +386,70 @@ def cbSvcs (tr : Trace) : List Svc :=
 
 def dlvSvcs (tr : Trace) : List Svc := (dlvs tr).flatMap fun e => ptrSvcs e.items
 
-/-- at the end of `p`: every browser on a host that has not been closed reports exactly the held instances of its type -/
-def k5At (p : Trace) : Bool :=
+def dedupSvc : List Svc → List Svc
+  | [] => []
+  | a :: r => if r.contains a then dedupSvc r else a :: dedupSvc r
+
+/-- at instant `T`, the end of `p`: every browser on a host that has not been closed reports the instances of its type that its
+host holds (unexpired), and nothing that the host does not hold (or held until less than a cleanup period ago) -/
+def k5At (cfg : Cfg) (p : Trace) (T : Int) : Bool :=
   (browses p).all fun b => !neverClosed p b.2.host ||
-    (cbSvcs p ++ dlvSvcs p).all fun s => live p b.2 s == (held p b.2.host s && s.ty == b.2.ty)
+    (dedupSvc (cbSvcs p ++ dlvSvcs p)).all fun s =>
+      (!(heldFresh cfg p b.2.host s T && s.ty == b.2.ty) || live p b.2 s)
+      && (!live p b.2 s || (heldGrace cfg p b.2.host s T && s.ty == b.2.ty))
 
 def relevantK5 (e : TEv) : Bool :=
   match e.e with
   | .dlv _ _ _ _ items => !(ptrSvcs items).isEmpty
-  | .added _ _ | .removed _ _ | .browse _ | .close _ => true
+  | .added _ _ | .removed _ _ | .browse _ | .close _ | .obs => true
   | _ => false
 
 def dedupAdj : List Int → List Int
   | a :: b :: r => if a = b then dedupAdj (b :: r) else a :: dedupAdj (b :: r)
   | l => l
 
-/-- K5 (C04, C06) as an invariant of every instant: `live = held ∧ type` after every block -/
-def K5 (tr : Trace) (endT : Int) : Bool :=
-  (endT :: dedupAdj ((tr.filter relevantK5).map (·.t))).all fun T => k5At (tr.filter fun e => e.t ≤ T)
+/-- K5 (C04, C06) as an invariant of every instant at which something relevant happened or the observer looked:
+`live = held ∧ type`, `held` = last PTR positive and unexpired (with one cleanup period of grace for the Removed) -/
+def K5 (cfg : Cfg) (tr : Trace) (endT : Int) : Bool :=
+  (endT :: dedupAdj ((tr.filter relevantK5).map (·.t))).all fun T => k5At cfg (tr.filter fun e => e.t ≤ T) T
+
+/-! ### K3b — refresh: a held PTR is re-queried before it expires -/
+
+/-- a QM question for `ty` that does not list `s` as a known answer -/
+def asksWithout (ty : Nat) (s : Svc) (items : List Item) : Bool :=
+  items.any fun it => match it with
+    | .query ty' known qu => ty' == ty && !qu && !(known.contains s)
+    | _ => false
+
+/-- host `h` multicasts such a question in `[lo - refreshEarly - dupQ, hi]`, or hears one (which suppresses its own) -/
+def refreshOpp (cfg : Cfg) (tr : Trace) (h ty : Nat) (s : Svc) (lo hi : Int) : Bool :=
+  ((sends tr).any fun sd => sd.h == h && sd.dst.isNone && lo - cfg.refreshEarly - cfg.dupQ ≤ sd.t && sd.t ≤ hi && asksWithout ty s sd.items)
+  || ((dlvs tr).any fun e => e.h == h && e.mc && lo - cfg.refreshEarly - cfg.dupQ ≤ e.t && e.t ≤ hi && asksWithout ty s e.items)
+
+/-- host `h` processes no PTR(`s`) (of any TTL) at a time in `(t1, t2]` -/
+def noPtrBetween (tr : Trace) (h : Nat) (s : Svc) (t1 t2 : Int) : Bool :=
+  (dlvs tr).all fun e => !(e.h == h && (ptrOf s e.items).isSome && t1 < e.t && e.t ≤ t2)
+
+def refreshLo (due tb : Int) : Int := if due < tb then tb else due
+
+/-- K3b (C10): a browser's host that processed PTR(`s`) with TTL τ > 0 at `t` and no PTR(`s`) since, asks for the type again —
+not listing `s`, which is stale by then — within `refreshWin` of `t + 75 % τ` and again of `t + 85 % τ` (or of the browser's
+start if that is later), unless the record was refreshed or withdrawn by the end of that window -/
+def K3b (cfg : Cfg) (tr : Trace) (endT : Int) : Bool :=
+  (browses tr).all fun b => !neverClosed tr b.2.host || (dlvs tr).all fun x => !(x.h == b.2.host) ||
+    (ptrSvcs x.items).all fun s => !(s.ty == b.2.ty && pos s x.items) || cfg.refreshAt.all fun k =>
+      match ptrOf s x.items with
+      | none => true
+      | some (ttl, _) =>
+        let lo := refreshLo (x.t + k * (effTtl cfg ttl / 1000)) b.1
+        !(lo + cfg.refreshWin ≤ endT && noPtrBetween tr b.2.host s x.t (lo + cfg.refreshWin))
+        || refreshOpp cfg tr b.2.host b.2.ty s lo (lo + cfg.refreshWin)
+
+/-- KF (consequence of K3b, K4, K7 — monitored, see `C07_convergence_partial`): on a browsing host, the PTR of a registered
+instance of the browsed type has not expired at the end of the window -/
+def KF (cfg : Cfg) (tr : Trace) (endT : Int) : Bool :=
+  (browses tr).all fun b => !neverClosed tr b.2.host ||
+    (dlvSvcs tr).all fun s => !(s.ty == b.2.ty && registered cfg tr s) || unexpired cfg tr b.2.host s endT 0
 
 /-! ### the lookup started from `Added` -/
 
